@@ -413,7 +413,7 @@ def _is_zero(e: ast.AST) -> bool:
 
 def r6_edge_tests(repo: Repo, rep, records=()):
     R = rep.rule("R-C06-6", "polygon normals detect the edge of a point with the closeness test of the boundary's membership predicate: isclose(coordinate, edge value) with at "
-                 "least (and at most 100x) the effective tolerance atol + rtol*|value| of that predicate; a difference is never compared with zero (that drops the relative tolerance)", floor=7,
+                 "least (and at most 100x) the effective tolerance atol + rtol*|value| of that predicate", floor=5,
                  why="a boundary point the membership test accepts but no edge test matches accumulates no normal: 0/0 = NaN")
     for mod, cname in (("parallelogram", "ParallelogramBoundary"), ("triangle", "TriangleBoundary")):
         ci = repo.cls(f"{DOM}.domain2D.{mod}.{cname}")
@@ -433,8 +433,6 @@ def r6_edge_tests(repo: Repo, rep, records=()):
             rep.saw(fi)
             subj, tgt = c.args[0], c.args[1]
             tol = tuple(sorted((k.arg, dump(k.value)) for k in c.keywords))
-            shifted = _is_zero(tgt) and isinstance(subj, ast.BinOp) and isinstance(subj.op, ast.Sub) and not _is_zero(subj.right)
-            rep.check(R, not shifted, fi.site(c), fi.fq, "edge test isclose(coordinate, edge value): the edge value is the reference of the tolerance", dump(c)[:100], "difference compared with zero")
             if not records:
                 rep.check(R, not tol_m or tol in tol_m, fi.site(c), fi.fq, "same tolerances as the membership predicate of this boundary", f"{tol} vs {sorted(tol_m)}", f"tolerances {tol}")
         # every edge value the membership test accepts within a tolerance is found by normal() within at least that tolerance - and not a
@@ -453,12 +451,36 @@ def r6_edge_tests(repo: Repo, rep, records=()):
             rep.undecided(R, ci.module.relpath, ci.fq, "isclose edge tests in the normal computation", "none found: idiom not recognised")
 
 
+class EdgeSet(set):
+    """closeness tests {(coordinate, value)} plus, per LINE `coordinate - value = 0` (normalised up to sign), the effective absolute tolerances it is tested with"""
+
+    def __init__(self, *a):
+        super().__init__(*a)
+        self.lines = {}
+
+    def note(self, subj, value, band):
+        from fractions import Fraction
+        line = subj - RF.const(Fraction(str(value)))
+        neg = RF.const(0) - line
+        key = min(repr(line), repr(neg))
+        self.lines.setdefault(key, []).append(band)
+
+
+def _line_key(coord: str, value: float) -> str:
+    from fractions import Fraction
+    terms = RF.const(0)
+    for part in coord.split("+"):
+        terms = terms + RF.atom(part.strip())
+    line = terms - RF.const(Fraction(str(value)))
+    return min(repr(line), repr(RF.const(0) - line))
+
+
 def _edge_tests(repo, ci, fi):
     """set of (normal form of the tested coordinate over the barycentric pair X, Y; target value) of every isclose reached from `fi`,
     helpers of the class inlined under their call-site bindings; None when something is not understood"""
     from ..flow import subst
     from ..inline import bind_args
-    out = set()
+    out = EdgeSet()
 
     def atom(n):
         if isinstance(n, ast.Subscript) and getattr(n, "_tuple_elt", False) and isinstance(n.value, ast.Call) and dump(n.value.func).endswith("_solve_lgs"):
@@ -466,6 +488,10 @@ def _edge_tests(repo, ci, fi):
         return None
 
     def const(n):
+        if isinstance(n, ast.Call) and attr_chain(n.func) in ("torch.zeros_like", "torch.zeros"):
+            return 0.0
+        if isinstance(n, ast.Call) and attr_chain(n.func) in ("torch.ones_like", "torch.ones"):
+            return 1.0
         if isinstance(n, ast.Call) and attr_chain(n.func) in ("torch.tensor", "torch.as_tensor") and n.args:
             n = n.args[0]
         if isinstance(n, ast.Constant) and isinstance(n.value, (int, float)) and not isinstance(n.value, bool):
@@ -483,6 +509,10 @@ def _edge_tests(repo, ci, fi):
                 if t is None:
                     return False
                 out.add((repr(subj), t))
+                at, rt = kwarg(c, "atol", 3), kwarg(c, "rtol", 2)
+                atol = 1e-8 if at is None else const(at)
+                rtol = 1e-5 if rt is None else const(rt)
+                out.note(subj, t, None if atol is None or rtol is None else atol + rtol * abs(t))
             # explicit forms of the same test: |x| <= c, |x - v| <= c (also torch.abs / x.abs()), with a small constant c
             if isinstance(c, ast.Compare) and len(c.ops) == 1 and isinstance(c.ops[0], (ast.LtE, ast.Lt, ast.GtE, ast.Gt)):
                 small, big = (c.left, c.comparators[0]) if isinstance(c.ops[0], (ast.LtE, ast.Lt)) else (c.comparators[0], c.left)
@@ -501,6 +531,7 @@ def _edge_tests(repo, ci, fi):
                     except NotPoly:
                         return False
                     out.add((repr(subj), float(target)))
+                    out.note(subj, float(target), bound)
         return True
 
     def visit(fn, env, depth):
@@ -528,8 +559,9 @@ def _edge_tests(repo, ci, fi):
 
 def r7_edge_agreement(repo: Repo, rep):
     from ..absdom.poly import to_rf as _t  # noqa: F401
-    R = rep.rule("R-C06-7", "the edge tests of a polygon boundary's normal() are the closeness tests of its membership predicate: the same coordinate against the same value", floor=2,
-                 why="testing an algebraically equal but numerically different quantity (1 - x - y against 0 instead of x + y against 1) changes the tolerance: accepted boundary points match no edge and get 0/0")
+    R = rep.rule("R-C06-7", "the edge tests of a polygon boundary's normal() are closeness tests to the SAME lines as its membership predicate, with an effective tolerance (atol + rtol*|value|) that "
+                 "covers the membership's", floor=2,
+                 why="a boundary point the membership accepts but no edge test matches accumulates no normal: 0/0; `1 - x - y` against 0 drops the relative part of the tolerance, which matters unless the absolute part covers it")
     for mod, cname in (("parallelogram", "ParallelogramBoundary"), ("triangle", "TriangleBoundary")):
         ci = repo.cls(f"{DOM}.domain2D.{mod}.{cname}")
         mem, nor = ci.methods.get("_contains"), ci.methods.get("normal")
@@ -540,7 +572,19 @@ def r7_edge_agreement(repo: Repo, rep):
         if not a or not b:
             rep.undecided(R, nor.site(), nor.fq, "edge tests of membership and normal extractable", f"membership {a}, normal {b}")
             continue
-        rep.check(R, a == b, nor.site(), nor.fq, f"normal() tests exactly {sorted(a)}", f"normal tests {sorted(b)}", f"{sorted(b)} vs {sorted(a)}")
+        la, lb = set(a.lines), set(b.lines)
+        rep.check(R, la == lb, nor.site(), nor.fq, f"normal() tests closeness to exactly the lines {sorted(la)}", f"normal tests {sorted(lb)}", f"{sorted(lb)} vs {sorted(la)}")
+        # every point the membership accepts near a line is matched by normal(): its tolerance is not smaller - up to half a float32 step of a
+        # barycentric coordinate (no float32 number lies between two bounds that close) - and not coarser by orders of magnitude
+        RES = 2.0 ** -24
+        for line in sorted(la & lb):
+            bm, bn = a.lines[line], b.lines[line]
+            if any(x is None for x in bm + bn):
+                rep.undecided(R, nor.site(), nor.fq, f"line {line}: constant tolerances", f"membership {bm}, normal {bn}")
+                continue
+            em, en = max(bm), min(bn)
+            rep.check(R, em - RES <= en and max(bn) <= 100 * em, nor.site(), nor.fq, f"line {line} = 0: tolerance in normal() covers that of the membership ({em:g}) and stays within 100x",
+                      f"normal tolerance {en:g}", f"line {line}: normal tolerance {en:g} vs membership {em:g}")
 
 
 EDGE_TABLE = {  # the lines that carry the sides, in barycentric coordinates (X along dir_1, Y along dir_2)
@@ -563,40 +607,19 @@ def r7b_edge_table(repo: Repo, rep):
         if not got:
             rep.undecided(R, mem.site(), mem.fq, "edge tests of the membership extractable", "none")
             continue
-        rep.check(R, sorted(got) == sorted(EDGE_TABLE[cname]), mem.site(), mem.fq, f"closeness tests are exactly {EDGE_TABLE[cname]}", f"{sorted(got)}", f"{cname}: {sorted(got)}")
+        want = sorted(_line_key(c, v) for c, v in EDGE_TABLE[cname])
+        rep.check(R, sorted(got.lines) == want, mem.site(), mem.fq, f"closeness is tested to exactly the lines {want} (= 0)", f"{sorted(got.lines)}", f"{cname}: {sorted(got.lines)}")
 
 
-def r8_walk_from_zero(repo: Repo, rep):
-    R = rep.rule("R-C06-8", "polygon boundary samplers walk the sides in local coordinates (a zero buffer) and add the origin once at the end", floor=4,
-                 why="the edge tests compare barycentric coordinates with 0 (absolute tolerance 1e-8 only): the closed walk d1 + d2 - d1 - s*d2 cancels exactly around 0, "
-                     "but not when every partial sum is rounded around the origin — such points match no edge and get the normal 0/0")
-    for mod, cname in (("parallelogram", "ParallelogramBoundary"), ("triangle", "TriangleBoundary")):
-        ci = repo.cls(f"{DOM}.domain2D.{mod}.{cname}")
-        for mname in ("sample_random_uniform", "sample_grid"):
-            fi = ci.methods.get(mname)
-            if fi is None:
-                continue
-            rep.saw(fi)
-            for p in paths(fi.node, expand_self=False):
-                if p.ret is RAISE or p.ret is None:
-                    continue
-                walks = [e.value for e in p.events if e.kind == "call" and isinstance(e.value, ast.Call) and dump(e.value.func) == "self._transform_interval_to_boundary"]
-                if not walks:
-                    rep.undecided(R, fi.site(), fi.fq, "the side walk helper is called", "no call of _transform_interval_to_boundary")
-                    break
-                w = walks[0]
-                wargs = list(w.args) + [k.value for k in w.keywords]
-                bufs = [a for a in wargs if isinstance(a, ast.Call) and attr_chain(a.func) in ("torch.zeros", "torch.zeros_like")]
-                others = [dump(a)[:50] for a in wargs if isinstance(a, ast.Call) and attr_chain(a.func) not in ("torch.zeros", "torch.zeros_like", "torch.rand") and "origin" in dump(a)]
-                rep.check(R, len(bufs) == 1 and not others, fi.site(), fi.fq, "the walk accumulates into torch.zeros(..) (origin not yet added)", f"buffer arguments {[dump(a)[:50] for a in wargs][-2:]}", "walk buffer")
-                rep.check(R, "origin" in dump(p.ret) or "_construct_" in dump(p.ret), fi.site(p.ret_node), fi.fq, "the origin is added to the finished walk", dump(p.ret)[:100], "origin added last")
-                break
+# R-C06-8 ("the side walk accumulates into a zero buffer, the origin is added last") was removed: it was written when the side tests used the
+# default atol of 1e-8; since the repair 3e214e0 (atol = 1e-5) the order of the additions no longer decides whether the sampler's own points are
+# found on a side (both orders lose them only beyond |origin| ~ 200, where (p + o) - o itself is off by more than the tolerance) - the rule fired on a
+# change that preserves the property and could not be made sound.
 
 
 def run(repo: Repo, rep):
     from .c05 import r8_side_tolerance
     records = r8_side_tolerance(repo, rep)
-    r8_walk_from_zero(repo, rep)
     r7_edge_agreement(repo, rep)
     r7b_edge_table(repo, rep)
     r6_edge_tests(repo, rep, records)
@@ -625,7 +648,7 @@ _CI = "src/torchphysics/problem/domains/domain2D/circle.py"
 _TM = "src/torchphysics/problem/domains/domain3D/trimesh_polyhedron.py"
 MUTANTS = [
     dict(id="C06-M40", file=_TR, old="torch.isclose(bary_coord, torch.tensor(i), atol=1e-5)", new="torch.isclose(bary_coord, torch.tensor(i))", rule="R-C05-8", what="side lookup of the normal with the default atol"),
-    dict(id="C06-M20", file=_TR, old="torch.isclose(bary_coord, torch.tensor(i), atol=1e-5)", new="torch.isclose(bary_coord - i, torch.zeros_like(bary_coord))", rule="R-C06-6", what="shifted difference compared with zero"),
+    dict(id="C06-M20", file=_TR, old="torch.isclose(bary_coord, torch.tensor(i), atol=1e-5)", new="torch.isclose(bary_coord - i, torch.zeros_like(bary_coord))", rule="R-C06-7", what="shifted difference compared with zero: the default atol of 1e-8 is all that is left"),
     dict(id="C06-M21", file=_PA, old="torch.isclose(bary_y, torch.tensor(i), atol=1e-5)", new="torch.isclose(bary_y, torch.tensor(i), atol=1e-5, rtol=1.0)", rule="R-C06-6", what="other tolerance than the membership test"),
     dict(id="C06-M1", file=_CU, old="        normals = torch.where(on_a, a_normals, -b_normals)", new="        normals = torch.where(on_a, a_normals, b_normals)", rule="R-C06-1", what="cut normals not flipped"),
     dict(id="C06-M2", file=_U, old="        normals = torch.where(on_a, a_normals, b_normals)\n        return normals", new="        normals = torch.where(on_a, a_normals, -b_normals)\n        return normals", rule="R-C06-1", what="union normals flipped"),
